@@ -92,6 +92,8 @@ def obligations(tier):
     for dk in ('absent', 'null', 'int'):
         for base in ('JsonRpcError', 'VerifBase'):
             obs.append({'h': 'batch_error', 'data': dk, 'base': base})
+    for n, via, via2 in it.product((1, 2), ('single', 'batch'), ('single', 'batch')):
+        obs.append({'h': 'request_noparams_batch', 'n': n, 'via': via, 'via2': via2})
     return obs
 
 
@@ -173,6 +175,26 @@ def _check_request_wire(w, method, params, id):
         raise Violation('wire:extra-member', w)
 
 
+def _independent(env, m, m2, w, params):
+    """Deserialised messages are independent objects: the receiver editing the parameters of ONE deserialised request in
+    place (a middleware injecting an argument) must not show up in another request deserialised from the same kind of
+    document.  `wb` is a second, container-wise independent wire form of the original message."""
+    import pjrpc
+    wb = _wire(env, m)
+    if isinstance(m2.params, list):
+        m2.params.append('injected')
+    elif isinstance(m2.params, dict):
+        m2.params['injected'] = 1
+    else:
+        return
+    try:
+        m3 = pjrpc.Request.from_json(wb)
+    except Exception as e:
+        raise Violation('own-wire-form-rejected:' + type(e).__name__, wb)
+    if not _params_equal(m3.params, params) or not same_json(_wire(env, m3), _wire(env, m)):      # (`w` itself is aliased by m2)
+        raise Violation('deserialised-requests-share-parameters', (w, m3))
+
+
 def h_request(ob):
     def run(env):
         import pjrpc
@@ -194,6 +216,7 @@ def h_request(ob):
         w2 = _wire(env, m2)
         if not same_json(w2, w):
             raise Violation('not-a-fix-point', (w, w2))
+        _independent(env, m, m2, w, params)
         return [ob['params'], 'id' in w, 'params' in w]
 
     return run
@@ -405,6 +428,28 @@ def h_batch_request(ob):
         if not same_json(_wire(env, b2), w):
             raise Violation('not-a-fix-point', w)
         return [len(b2)]
+
+    return run
+
+
+def h_request_noparams_batch(ob):
+    """Requests WITHOUT a params member, alone and as batch elements: each deserialised request has its own (empty) parameters."""
+    def run(env):
+        import pjrpc
+        n = ob['n']
+        docs = [{'jsonrpc': '2.0', 'method': env.str(f'm{i}', 2), 'id': i} for i in range(n)]
+        env.reached()
+        first = pjrpc.BatchRequest.from_json([dict(d) for d in docs]) if ob['via'] == 'batch' else [pjrpc.Request.from_json(dict(d)) for d in docs]
+        for r in first:
+            if isinstance(r.params, list):
+                r.params.append('injected')
+            elif isinstance(r.params, dict):
+                r.params['injected'] = 1
+        second = pjrpc.BatchRequest.from_json([dict(d) for d in docs]) if ob['via2'] == 'batch' else [pjrpc.Request.from_json(dict(d)) for d in docs]
+        for r, d in zip(second, docs):
+            if r.params or not same_json(_wire(env, r), d):
+                raise Violation('deserialised-requests-share-parameters', (d, r))
+        return [n]
 
     return run
 
